@@ -299,4 +299,45 @@ def crossCheckT (ownPlain ownSub : List Key) : List (List Key × List Key) → R
   | [] => pure ()
   | (p, s) :: rest => do crossCheckHandlers ownPlain ownSub p s; crossCheckT ownPlain ownSub rest
 
+/-! ## definition histories over both containers of every member (`pa gdef` with sub-group definitions) -/
+
+/-- the two key tables of one handler: (`mArguments`, `mSubGroupArgs`) -/
+abbrev Tables2 := List (Key × Unit) × List (Key × Unit)
+
+/-- one definition on a handler that is used by a group.
+    `isSub = false`: `Handler::addArgument( spec, dest, desc)` → `internAddArgument`:
+    `mArguments.addArgument( obj, key, &mSubGroupArgs)`, then `Groups::crossCheckArguments( this)`.
+    `isSub = true`: `Handler::addArgument( spec, Handler& subGroup, desc)`:
+    `mSubGroupArgs.addArgument( obj, key, &mArguments)`, then (since `fix:` b870f06)
+    `Groups::crossCheckArguments( this)`.
+    In both: the OTHER container of the handler is asked first (`checkKeyUnused`), then the own table
+    (`Storage::addArgument`), then the handler's two containers are checked against the two
+    containers of every other member (`Handler::crossCheckArguments`, four `checkArgMix` calls). -/
+def groupAddArgumentT (isSub : Bool) (own : Tables2) (others : List (List Key × List Key)) (k : Key) :
+    Res Tables2 := do
+  let own' : Tables2 ←
+    if isSub then (do let s ← addArgumentChecked own.2 own.1 k (); pure (own.1, s))
+    else (do let p ← addArgumentChecked own.1 own.2 k (); pure (p, own.2))
+  crossCheckT (own'.1.map (·.1)) (own'.2.map (·.1)) others
+  pure own'
+
+/-- the key lists of every member but `m`, registration order -/
+def otherTables (tables : List Tables2) (m : Nat) : List (List Key × List Key) :=
+  (tables.zipIdx.filter (fun ti => ti.2 != m)).map (fun ti => (ti.1.1.map (·.1), ti.1.2.map (·.1)))
+
+/-- a sequence of definitions `(member, is a sub-group argument, key specification)` on a group whose
+    members were created first: index and exception class of the first definition that is refused,
+    `none` if all are accepted (`groupDefineSeq` with both containers). -/
+def groupDefineSeqT : List Tables2 → List (Nat × Bool × List Char) → Nat → Option (Exc × Nat)
+  | _, [], _ => none
+  | tables, (m, isSub, spec) :: rest, idx =>
+    match Key.parse spec with
+    | .throw e => some (e, idx)
+    | .oob _ => some (.other, idx)
+    | .ok k =>
+      match groupAddArgumentT isSub (tables.getD m ([], [])) (otherTables tables m) k with
+      | .ok t => groupDefineSeqT (tables.set m t) rest (idx + 1)
+      | .throw e => some (e, idx)
+      | .oob _ => some (.other, idx)
+
 end CelmaVerif.ProgArgs
